@@ -21,7 +21,7 @@ import (
 
 // C08 — Protocol handlers terminate without panic on arbitrary packets.
 
-const c08Rule = "protocol-aware frames (ARP, DHCPv4 all message types both ports, ICMPv4 incl. embedded datagrams, ICMPv6/NDP with option lists, DNS, mDNS/LLMNR with every record type in every section, NBNS, SSDP, 802.3 LLC/SNAP/STP/IPX) built by ref, closed under truncation at every offset, count/length/pointer corruption and byte mutation, dispatched by PayloadID exactly as the examples do (Parse, Process*, Notify); plus raw bytes handed to the exported payload decoders behind their IsValid. oracle = returns within the watchdog budget and does not panic. non-trivial = Parse accepted the frame and a handler or decoder was entered; distinct by hash of the bytes"
+const c08Rule = "protocol-aware frames (ARP, DHCPv4 all message types both ports, ICMPv4 incl. embedded datagrams, ICMPv6/NDP with option lists, DNS, mDNS/LLMNR with every record type in every section, NBNS, SSDP, 802.3 LLC/SNAP/STP/IPX) built by ref, closed under truncation at every offset, count/length/pointer corruption and byte mutation, dispatched by PayloadID exactly as the examples do (Parse, Process*, Notify); plus raw bytes handed to the exported payload decoders behind their IsValid. oracle = returns within the watchdog budget and does not panic (a panic in a goroutine the handler started takes the shard down and is reported as process-crash); what RA.Options returns without an error must be carried by an intact option of the message. non-trivial = Parse accepted the frame and a handler or decoder was entered; distinct by hash of the bytes"
 
 type c08Env struct {
 	s     *packet.Session
